@@ -147,7 +147,11 @@ def check_degenerate(np, ce, pp, layout):
     bad = []
     img = test_image(np)
     cases = {'vertical': ([[50, 40], [50, 120]], [10, 5]), 'single-pixel': ([[60, 60], [61, 60]], [10, 5]), 'zero-heights': ([[40, 60], [140, 62]], [0, 0]),
-             'same-point': ([[60, 60], [60, 60]], [10, 5])}
+             'same-point': ([[60, 60], [60, 60]], [10, 5]),
+             # heights as the layout engine / the PAGE reader produce them: numpy scalars and arrays (a zero height then gives inf,
+             # not ZeroDivisionError)
+             'zero-heights-float64': ([[40, 60], [140, 62]], np.zeros(2)), 'zero-heights-float32': ([[40, 60], [140, 62]], np.zeros(2, dtype=np.float32)),
+             'zero-heights-numpy-scalars': ([[40, 60], [140, 62]], [np.float64(0), np.float64(0)])}
     for name, (pts, hs) in cases.items():
         for poly in (0, 1, 2):
             eng = ce.EngineLineCropper(line_height=48, poly=poly, scale=1)
@@ -251,7 +255,7 @@ def run(ctx):
     for clause, detail in check_degenerate(np, ce, pp, layout):
         if not any(f.signature == sig('rt', 'crop', clause) for f in fails):
             fails.append(Failure(sig('rt', 'crop', clause), detail, function='EngineLineCropper.crop / LineCropper.process_page', input={'case': 'degenerate'}, observed=detail, clause=clause))
-    ctx.add_bounded('degenerate-lines', '4 degenerate baselines x 3 interpolation orders through crop(); LineCropper.process_page over a page with them', 13, 13, True,
+    ctx.add_bounded('degenerate-lines', '7 degenerate lines (vertical, single pixel, same point, zero heights as python numbers / numpy arrays / numpy scalars) x 3 interpolation orders through crop(); LineCropper.process_page over a page with them', 22, 22, True,
                     [{'baseline': [[50, 40], [50, 120]], 'heights': [10, 5]}], fails, rule='fixed cases', clause='blank image of the configured height, never an error')
     items = bounded.order(plans(thorough), ctx.seed)
     res = bounded.pmap(_chunk, bounded.shard(items, 64))
